@@ -113,7 +113,7 @@ Lemma ctor_generic_sim a ctx ms ms' mh t tm :
   floats ctx = floats d ->
   a_ess a = [] -> a_stmt a = (tc_pattern, [tm]) -> term_ok env (float_vars d) tm = true ->
   Inv ms mh t -> apply_assertion ctx a ms = Some ms' ->
-  exists t', (match do (emit_pat (axiom_pat d sid a)) t with
+  exists t', (match do (emit_pat (concl_pat d sid a)) t with
               | Some t1 => do_inst d a t1 | None => None end) = Some t' /\ Inv ms' mh t' /\ steps_to t t'.
 Proof.
   intros EF EE ES TO I HA.
@@ -121,7 +121,7 @@ Proof.
   rewrite EE in E1. simpl in E1. rewrite ES in E2. unfold ssubst in E2. simpl in E2.
   pose proof (inv_stack _ _ _ _ _ _ I) as HSt. rewrite E1 in HSt.
   destruct (stack_split d sid [] ts rest _ HSt) as [srest [ESt HR]]. simpl in ESt.
-  assert (EP: axiom_pat d sid a = im tm). { unfold axiom_pat. rewrite ES, EE. reflexivity. }
+  assert (EP: concl_pat d sid a = im tm). { unfold concl_pat. rewrite ES. reflexivity. }
   rewrite EP.
   assert (R: iruns Proof (emit_pat (im tm)) (mst t) = Some (push (TPat (im tm)) (mst t))).
   { apply emit_pat_run. apply im_simple. }
@@ -230,7 +230,7 @@ Proof.
   destruct (save_pops_ok (map TProved (rev PE)) t [] _ ESt) as [t1 [D1 S1]]. rewrite D1. simpl app.
   (* load the axiom *)
   assert (EP: axiom_pat d sid a = chain_imp (map im eterms) (im c)).
-  { unfold axiom_pat. rewrite ES. unfold eterms. rewrite map_map. reflexivity. }
+  { unfold axiom_pat, ants_pat, concl_pat. rewrite ES. unfold eterms. rewrite map_map. reflexivity. }
   assert (HM1: In (TProved (axiom_pat d sid a)) (memory (mst t1))).
   { destruct S1 as (_ & M & _). rewrite M. apply in_or_app. left.
     apply (inv_ax _ _ _ _ _ _ I). apply exported_in; assumption. }
